@@ -133,6 +133,13 @@ func (b *BitMatrix) FlipAll() {
 	for i := 0; i < max; i++ {
 		b.bits[i] = ^b.bits[i]
 	}
+	// keep the padding bits beyond width unset
+	if shift := uint(b.width % 32); shift != 0 {
+		mask := uint32(1)<<shift - 1
+		for y := 0; y < b.height; y++ {
+			b.bits[(y+1)*b.rowSize-1] &= mask
+		}
+	}
 }
 
 func (b *BitMatrix) Xor(mask *BitMatrix) error {
